@@ -141,12 +141,12 @@ class MutableKernelSizes:
         :rtype: int
         """
         if kernel_size is not None:
-            if self.tuple_sizes:
-                assert isinstance(kernel_size, tuple), "Kernel size must be a tuple."
-            else:
-                assert isinstance(kernel_size, int), "Kernel size must be an integer."
+            # NOTE: `change_kernel` reports the new kernel size as an integer, which is
+            # what gets replayed on the other networks of an algorithm (also Conv3d ones)
+            if isinstance(kernel_size, (tuple, list)):
+                kernel_size = kernel_size[-1]
 
-            new_kernel_size = kernel_size
+            new_kernel_size = int(kernel_size)
         else:
             max_kernels = self.calc_max_kernel_sizes(
                 channel_size, stride_size, input_shape
